@@ -222,7 +222,7 @@ def split_bodies(text):
             i += 1
     return bodies, simple
 
-_SIMPLE_CONST = re.compile(r'^const (.+?): (.+?) = const (.+);$')
+_SIMPLE_CONST = re.compile(r'^const (.+): ([^=]+?) = const (.+);$')
 
 LOCAL_RE = re.compile(r'^\s+let (mut )?(_\d+): (.*);$')
 DEBUG_RE = re.compile(r'^\s+debug (.+?) => (.*);$')
